@@ -290,7 +290,7 @@ pub struct World {
 }
 
 pub fn is_soft(oracle: &str) -> bool {
-    oracle.ends_with("-empty-script") || oracle.ends_with("-map-redo-refused") || oracle.ends_with("not-notified-deleted-boundary") || oracle.ends_with("not-notified-on-delete") || oracle.ends_with("offset-bytes-nonascii") || oracle.ends_with("-noop-retain-script") || oracle.ends_with("path-utf16-in-bytes-doc") || oracle.ends_with("-tombstone-dup") || oracle.ends_with("rebuild-stashed") || oracle.ends_with("restore-gappy")
+    oracle.ends_with("-empty-script") || oracle.ends_with("-map-redo-refused") || oracle.ends_with("not-notified-deleted-boundary") || oracle.ends_with("not-notified-on-delete") || oracle.ends_with("offset-bytes-nonascii") || oracle.ends_with("-noop-retain-script") || oracle.ends_with("path-utf16-in-bytes-doc") || oracle.ends_with("-tombstone-dup") || oracle.ends_with("rebuild-stashed") || oracle.ends_with("selfdiff-stashed") || oracle.ends_with("restore-gappy")
 }
 
 pub fn viol(oracle: &str, msg: String) -> Violation {
